@@ -1,6 +1,6 @@
 from engine.runner import Ob
 ASSUMPTIONS = [
-    "inputs are composed from 10 fragment containers x 32 context openers x 32 context openers x 48 mutation-XSS shaped payloads (raw-text / RCDATA / foreign content / integration points / tables / select / noscript / comments / attribute-value breakouts / obfuscated schemes / backticks / NUL), by symbolic index; quote mode, optional-tag omission, scripting of both parses, re-parse mode (same container, div, document) and walker are symbolic; run concretely after the fork",
+    "inputs are composed from 10 fragment containers x 34 context openers x 34 context openers x 53 mutation-XSS shaped payloads (raw-text / RCDATA / foreign content / integration points / tables / select / noscript / comments / attribute-value breakouts / obfuscated schemes / backticks / NUL), by symbolic index; quote mode, optional-tag omission, scripting of both parses, re-parse mode (same container, div, document) and walker are symbolic; run concretely after the fork",
     "safety predicate = the sanitizer's default allow-lists applied to the re-parsed DOM (elements, attributes, URI schemes by the browser rule R6, data: content types, url() in style, no comments); implied html/head/body are accepted in document mode",
     "composition with C09 (filter output) and C08 (lexical faithfulness); context agreement over the whole allow-list is a concrete lemma (finite table)",
 ]
@@ -16,6 +16,6 @@ def obligations(tier):
         cis = [0] if q else [0, 2]
         for ci in cis:
             obs.append(Ob("C10.roundtrip/open%02d/%s" % (o1, C10.CONTAINERS[ci]), "crosshair", "harness.C10:roundtrip", T, param={"o1": o1, "ci": ci, "o2max": 3 if q else 8, "scr1": False if q else None, "wdom": True, "skipmode": 1 if q else 9},
-                          bounds="container %r, first opener %r x %d second openers x 48 payloads x omit x {legacy, always} quoting x first-parse scripting %s x re-parse scripting x %d re-parse modes; dom walker" % (C10.CONTAINERS[ci], C10.OPEN[o1], 3 if q else 8, "off" if q else "off/on", 2 if q else 3),
+                          bounds="container %r, first opener %r x %d second openers x 53 payloads x omit x {legacy, always} quoting x first-parse scripting %s x re-parse scripting x %d re-parse modes; dom walker" % (C10.CONTAINERS[ci], C10.OPEN[o1], 3 if q else 8, "off" if q else "off/on", 2 if q else 3),
                           encodes=["html5lib/html5parser.py:HTMLParser.parseFragment", "html5lib/filters/sanitizer.py:Filter.*", "html5lib/serializer.py:HTMLSerializer.serialize", "html5lib/treewalkers/*", "html5lib/_tokenizer.py"]))
     return obs
